@@ -220,12 +220,15 @@ func c04Part(rp *runner.Report) {
 	par(1<<5, func(inc int) {
 		for exc := 0; exc < 1<<5; exc++ {
 			incIDs, excIDs := []uint8{}, []uint8{}
+			// include and exclude sets are drawn from the same five IDs (one per mask word plus a neighbour), so that
+			// overlapping include/exclude sets - which must match nothing - are part of the domain
+			pool := []uint8{bound[0], bound[3], bound[5], bound[7], bound[9]}
 			for k := 0; k < 5; k++ {
 				if inc&(1<<k) != 0 {
-					incIDs = append(incIDs, bound[2*k])
+					incIDs = append(incIDs, pool[k])
 				}
 				if exc&(1<<k) != 0 {
-					excIDs = append(excIDs, bound[2*k+1])
+					excIDs = append(excIDs, pool[k])
 				}
 			}
 			el := make([]ecs.ID, len(excIDs))
@@ -315,9 +318,6 @@ func c04Part(rp *runner.Report) {
 		want := refMask(ids)
 		leaves = append(leaves, expr{&ex, func(s *idset) bool { return *s == want }, fmt.Sprintf("Exclusive%v", ids)})
 		for c := 0; c < 8; c++ {
-			if b&c != 0 {
-				continue
-			}
 			exc := sub3(c)
 			wf := m.Without(toIDs(exc)...)
 			leaves = append(leaves, expr{&wf, func(s *idset) bool { return hasAll(s, ids) && !hasAny(s, exc) }, fmt.Sprintf("All%v.Without%v", ids, exc)})
